@@ -333,7 +333,7 @@ func R14(p *core.Prog) *core.Result {
 				if sc == nil || funcPkgPath(sc) != "reflect" {
 					continue
 				}
-				switch sc.Name() {
+				switch core.FuncName(sc) {
 				case "SetMapIndex":
 					setIdx = append(setIdx, core.FuncKey(f))
 				case "MakeMap", "MakeMapWithSize":
@@ -346,7 +346,7 @@ func R14(p *core.Prog) *core.Result {
 						}
 						if iff, ok := id.Instrs[len(id.Instrs)-1].(*ssa.If); ok && id.Succs[0] == d {
 							if cc, ok := iff.Cond.(*ssa.Call); ok {
-								if s2 := cc.Common().StaticCallee(); s2 != nil && s2.Name() == "IsNil" {
+								if s2 := cc.Common().StaticCallee(); s2 != nil && core.FuncName(s2) == "IsNil" {
 									guarded = true
 								}
 							}
@@ -386,13 +386,13 @@ func R14(p *core.Prog) *core.Result {
 						continue
 					}
 					sc := c.Common().StaticCallee()
-					if sc == nil || sc.Name() != "SetMapIndex" || funcPkgPath(sc) != "reflect" || len(c.Common().Args) < 2 {
+					if sc == nil || core.FuncName(sc) != "SetMapIndex" || funcPkgPath(sc) != "reflect" || len(c.Common().Args) < 2 {
 						continue
 					}
 					n++
 					conv := false
 					if kc, ok := c.Common().Args[1].(*ssa.Call); ok {
-						if ks := kc.Common().StaticCallee(); ks != nil && ks.Name() == "Convert" && funcPkgPath(ks) == "reflect" {
+						if ks := kc.Common().StaticCallee(); ks != nil && core.FuncName(ks) == "Convert" && funcPkgPath(ks) == "reflect" {
 							// converted to the key type of a map type
 							if len(kc.Common().Args) == 2 {
 								if tc, ok := kc.Common().Args[1].(*ssa.Call); ok && tc.Common().IsInvoke() && tc.Common().Method.Name() == "Key" {
@@ -444,10 +444,10 @@ func R14(p *core.Prog) *core.Result {
 					continue
 				}
 				if color[g] == 1 {
-					cyclic = strings.Join(append(trail, f.Name(), g.Name()), " -> ")
+					cyclic = strings.Join(append(trail, core.FuncName(f), core.FuncName(g)), " -> ")
 					return true
 				}
-				if color[g] == 0 && visit(g, append(trail, f.Name())) {
+				if color[g] == 0 && visit(g, append(trail, core.FuncName(f))) {
 					return true
 				}
 			}
@@ -466,9 +466,9 @@ func R14(p *core.Prog) *core.Result {
 		}
 		var names, gnames []string
 		for f := range scc {
-			names = append(names, f.Name())
+			names = append(names, core.FuncName(f))
 			if guards[f] {
-				gnames = append(gnames, f.Name())
+				gnames = append(gnames, core.FuncName(f))
 			}
 		}
 		sort.Strings(names)
@@ -610,6 +610,23 @@ func byValueStructDescent(in ssa.Instruction) bool {
 		if c, ok := constIntVal(bo.Y); !ok || c != int64(reflect.Struct) {
 			continue
 		}
+		// the tested type is the declared type of a struct field itself (reflect.StructField.Type, no pointer
+		// stripped), and that same type is what the call descends into
+		tk := structFieldTypeKey(call.Common().Value)
+		if tk == "" {
+			continue
+		}
+		same := false
+		if ci, ok := in.(ssa.CallInstruction); ok {
+			for _, a := range ci.Common().Args {
+				if structFieldTypeKey(a) == tk {
+					same = true
+				}
+			}
+		}
+		if !same {
+			continue
+		}
 		structSucc := b.Succs[0]
 		if bo.Op == token.NEQ {
 			structSucc = b.Succs[1]
@@ -621,13 +638,34 @@ func byValueStructDescent(in ssa.Instruction) bool {
 	return false
 }
 
+// structFieldTypeKey: v is a load of the Type field of a reflect.StructField; returns a key of the field's address.
+func structFieldTypeKey(v ssa.Value) string {
+	ld, ok := v.(*ssa.UnOp)
+	if !ok || ld.Op != token.MUL {
+		return ""
+	}
+	fa, ok := ld.X.(*ssa.FieldAddr)
+	if !ok {
+		return ""
+	}
+	n := namedOf(fa.X.Type())
+	if n == nil || n.Obj().Pkg() == nil || n.Obj().Pkg().Path() != "reflect" || n.Obj().Name() != "StructField" {
+		return ""
+	}
+	st := n.Underlying().(*types.Struct)
+	if st.Field(fa.Field).Name() != "Type" {
+		return ""
+	}
+	return addrKey(fa)
+}
+
 func sccSucc(f *ssa.Function, root *ssa.Function) []*ssa.Function {
 	var out []*ssa.Function
 	for _, b := range f.Blocks {
 		for _, in := range b.Instrs {
 			if c, ok := in.(ssa.CallInstruction); ok {
 				if sc := c.Common().StaticCallee(); sc != nil && core.FuncPkg(sc) == core.FuncPkg(root) && sc.Blocks != nil {
-					if sc == f && byValueStructDescent(in) {
+					if byValueStructDescent(in) {
 						continue
 					}
 					out = append(out, sc)
@@ -788,7 +826,7 @@ func R15(p *core.Prog) *core.Result {
 		}
 		for _, in := range b.Instrs {
 			if c, ok := in.(*ssa.Call); ok {
-				if sc := c.Common().StaticCallee(); sc != nil && sc.Name() == "feed" {
+				if sc := c.Common().StaticCallee(); sc != nil && core.FuncName(sc) == "feed" {
 					feedSeen = true
 				}
 			}
@@ -828,7 +866,7 @@ func (k *r15client) Key(s r15state) string                              { return
 func (k *r15client) Phis(s r15state, _ *ssa.BasicBlock, _ int) r15state { return s }
 func (k *r15client) Instr(s r15state, in ssa.Instruction) (r15state, bool, []r15state) {
 	if c, ok := in.(*ssa.Call); ok {
-		if sc := c.Common().StaticCallee(); sc != nil && (sc.Name() == "init" || sc.Name() == "reset") && len(c.Common().Args) > 0 {
+		if sc := c.Common().StaticCallee(); sc != nil && (core.FuncName(sc) == "init" || core.FuncName(sc) == "reset") && len(c.Common().Args) > 0 {
 			// receiver is &u.unfoldCtx.F or &ctx.F
 			if fa, ok := c.Common().Args[0].(*ssa.FieldAddr); ok {
 				stt := fa.X.Type().Underlying().(*types.Pointer).Elem().Underlying().(*types.Struct)
